@@ -19,6 +19,11 @@ CLAIMED["C10"] = dict(
    note="Trusted: Coq kernel; Dec.render/parse_int on stdlib Decimal stand for strconv.FormatInt/ParseInt (int64 range check modelled explicitly); bufio.Reader is trusted stdlib; declared lengths above 10^6 are not generated (make() would exhaust memory: abort, not a value). Model tied to the code by the differential run (sampling).",
    technique="Coq proof (nested induction on value trees / fuel) + differential correspondence run with exhaustive truncations",
    design="DESIGN.md section 5, C10")
+CLAIMED["C13"] = dict(
+   text="Theorems in coq/Props/C13.v (closed, no axioms): for every row (firstkey,lastkey,keystep) with firstkey>=1, keystep>0 and every argument vector of a valid arity - written as leading args ++ key groups ++ trailing options, any number and content of groups - the model of getMatchKeys returns leading args ++ exactly the groups whose key passes, in the original order, ++ trailing options, and reports 'dropped' iff no key passes (induction over the group list); every row of the command table regenerated from redis_command.go satisfies the side conditions; HandleFilterKeyWithCommand returns the command unchanged without a key filter or for commands outside the table. Differential run: every table command x its argument shapes x ALL pass/reject assignments x whitelist/blacklist through the real filter.HandleFilterKeyWithCommand.",
+   note="Trusted: Coq kernel; goextract (command table translator); extraction + OCaml driver. 'Valid arity' is the visible hypothesis of the theorem (the Go code panics on a malformed arity; not generated). Commands with a getkeys procedure are commented out in the table and therefore pass unfiltered by design (documented, not claimed). The path through the incremental parser is exercised by C03.",
+   technique="Coq proof (induction over key groups) + regenerated command table + exhaustive differential run over assignments",
+   design="DESIGN.md section 5, C13")
 NOT_YET = {}
 props = [json.loads(l) for l in open(os.path.join(V, "properties.jsonl"))]
 hooks = subprocess.run(["git", "-C", "/repo", "log", "--format=%H %s"], capture_output=True, text=True).stdout.strip().split("\n")
